@@ -189,6 +189,29 @@ def run(chk):
             back = float(sn.n(im, t=t))
             if not close(back, n, 1e-8):
                 chk.fail("n(fatigue_strength(N,t),t) == N", inp, n, back)
+    # ---- input types and caller data: integer stresses, float arrays passed twice ----------------------------------------------
+    for c in curves[:60 if chk.quick else 600]:
+        sn, _ = build(c)
+        t = None if c["t_ref"] is None else 2.0 * c["t_ref"]
+        inp = dict(curve=pub(c), t=t, kind="types")
+        chk.count("sn.types")
+        ints = [3, 30, 300, 3000]
+        try:
+            a_int = np.asarray(sn.n(np.array(ints), t=t), dtype=float)
+            a_flt = np.asarray(sn.n(np.array(ints, dtype=float), t=t), dtype=float)
+            s_int = [float(sn.n(v, t=t)) for v in ints]
+        except Exception as e:
+            chk.fail("n accepts integer stress ranges like float ones", inp, "values", type(e).__name__)
+            continue
+        if not (np.allclose(a_int, a_flt, rtol=1e-13) and np.allclose(s_int, a_flt, rtol=1e-13)):
+            chk.fail("scalar, array, integer and float evaluation of n agree", dict(inp, s=ints), a_flt.tolist(), [a_int.tolist(), s_int])
+        arr = np.array([12.5, 45.0, 120.0, 800.0])
+        a0 = arr.copy()
+        r1 = np.array(sn.n(arr, t=t), dtype=float)
+        r2 = np.array(sn.n(arr, t=t), dtype=float)
+        if not (np.array_equal(arr, a0) and np.array_equal(r1, r2)):
+            chk.fail("evaluating n does not modify the caller's stress array (a second call gives the same answer)", dict(inp, s=a0.tolist()),
+                     r1.tolist(), r2.tolist())
     # ---- slope change exactly at nswitch ------------------------------------------------------------------------
     for c in curves:
         if c["m2"] is None:
